@@ -7,7 +7,8 @@
    alerts of every level and description, application data, records the record layer rejects, end of stream. *)
 From Coq Require Import List NArith Arith Bool Lia.
 From GmsmVerif Require Import Lib.Outcome HS.HSTerms HS.HSModel HS.HSParsers HS.HSParserProofs HS.HSProofs
-     HS.HSClientFlight HS.HSTlsClientFlight HS.HSServerFlight HS.HSRecords HS.HSTablesTie Gen.HSTables.
+     HS.HSClientFlight HS.HSTlsClientFlight HS.HSServerFlight HS.HSRecords HS.HSTablesTie Gen.HSTables
+     HS.HSMsgParsers HS.HSMsgParserProofs HS.HSFlightTie.
 Import ListNotations.
 Local Open Scope N_scope.
 
@@ -197,6 +198,50 @@ Proof.
 Qed.
 Print Assumptions C15_read_handshake_total.
 
+(* ---- 4b. the parsers of handshake_messages.go (derived from crypto/tls), byte level ------------------------------ *)
+(* HS/HSMsgParsers.v models every unmarshal function an endpoint runs on a peer's handshake message, expression by
+   expression, with every index and slice expression a checked access (Panic where Go panics) and every loop on fuel.
+   [data] is the whole message with its 4-byte header, any byte string whatever.  no_crash = neither Panic nor Hang. *)
+Theorem C15_clientHello_unmarshal_total : forall data, no_crash (clientHello_unmarshal data).
+Proof. exact clientHello_unmarshal_total. Qed.
+Print Assumptions C15_clientHello_unmarshal_total.
+
+Theorem C15_serverHello_unmarshal_total : forall data, no_crash (serverHello_unmarshal data).
+Proof. exact serverHello_unmarshal_total. Qed.
+Print Assumptions C15_serverHello_unmarshal_total.
+
+(* certificateMsg.unmarshal does its length arithmetic in uint32 (modelled with wrap-around); the statement is for
+   byte strings whose elements are bytes and whose length fits 32 bits (readHandshake bounds it by maxHandshake + 4) *)
+Theorem C15_certificate_unmarshal_total : forall data,
+  bytes_ok data -> N.of_nat (length data) < 4294967296 -> no_crash (certificate_unmarshal data).
+Proof. exact certificate_unmarshal_total. Qed.
+Print Assumptions C15_certificate_unmarshal_total.
+
+Theorem C15_message_parsers_total : forall flag data,
+  no_crash (serverKeyExchange_unmarshal data) /\ no_crash (clientKeyExchange_unmarshal data) /\
+  no_crash (certificateRequest_unmarshal flag data) /\ no_crash (certificateVerify_unmarshal flag data) /\
+  no_crash (finished_unmarshal data) /\ no_crash (newSessionTicket_unmarshal data) /\
+  no_crash (certificateStatus_unmarshal data) /\ no_crash (nextProto_unmarshal data).
+Proof.
+  intros flag data.
+  repeat split; [apply serverKeyExchange_unmarshal_total|apply clientKeyExchange_unmarshal_total
+    |apply certificateRequest_unmarshal_total|apply certificateVerify_unmarshal_total|apply finished_unmarshal_total
+    |apply newSessionTicket_unmarshal_total|apply certificateStatus_unmarshal_total|apply nextProto_unmarshal_total].
+Qed.
+Print Assumptions C15_message_parsers_total.
+
+(* The exact acceptance condition of the ClientHello extension block ("for len(data) != 0 { ... }" with its switch):
+   the loop accepts a block iff it is a sequence of (u16 type, u16 length, body) entries with nothing left over whose
+   bodies satisfy ext_body_ok (HSMsgParsers.v: per extension type the declarative shape of the body; unknown types and
+   status_request / session_ticket take any body); every other block is rejected by "return false". *)
+Theorem C15_clientHello_extension_block : forall data m,
+  (accepts (ch_ext_loop (S (length data)) data m) <-> ext_block_ok data) /\
+  (~ ext_block_ok data -> exists e, ch_ext_loop (S (length data)) data m = Err e).
+Proof.
+  intros data m. split; [apply ch_ext_loop_accepts; lia|apply ch_ext_loop_rejects].
+Qed.
+Print Assumptions C15_clientHello_extension_block.
+
 (* ---- 5. the tables the models use are the ones in the source now -------------------------------------------- *)
 (* Gen/HSTables.v is regenerated from gmtls/cipher_suites.go, gm_support.go, common.go on every run: both suite tables
    row by row (id, key agreement, flag bits), the default suite lists, version numbers, minVersion / maxVersion,
@@ -213,6 +258,91 @@ Theorem C15_tables_match_source :
   (maxHandshake, maxPlaintext, N.of_nat maxWarnAlertCount) = (gen_maxHandshake, gen_maxPlaintext, gen_maxWarnAlertCount).
 Proof. exact tables_match_source. Qed.
 Print Assumptions C15_tables_match_source.
+
+(* ---- 5b. message numbers, alert numbers, ClientAuth constants, the order of reads ------------------------------ *)
+(* Also regenerated on every run, from the AST of conn.go, alert.go, common.go and the five handshake files of the
+   default build: the type* constants and the case list of readHandshake's dispatch switch; the alert constants and
+   the level switch of readRecord; the ClientAuthType constants and every test of Config.ClientAuth in
+   checkForResumption / doFullHandshake / processCertsFromClient; and, for every handshake entry point, the sequence
+   of reads in source order - each "msg.(*xxxMsg)" type assertion (through the calls of hs methods, resumption and
+   full branch separately) and each readRecord(recordTypeChangeCipherSpec), with "optional" and the alert of the
+   mismatch branch (rows [type; optional; alert], 256 = ChangeCipherSpec). *)
+Theorem C15_message_numbers_match_source :
+  (forall m, exists rest, enc_hmsg m = TPair (TLabel (hmsg_type m)) rest) /\
+  (forall ch sh certs b p s ct a sg vd t,
+    [hmsg_type MHelloRequest; hmsg_type (MClientHello ch); hmsg_type (MServerHello sh); hmsg_type (MNewSessionTicket t);
+     hmsg_type (MCertificate certs); hmsg_type MCertificateRequest; hmsg_type MCertificateStatus;
+     hmsg_type (MServerKeyExchange b p s); hmsg_type MServerHelloDone; hmsg_type (MClientKeyExchange b ct);
+     hmsg_type (MCertificateVerify a sg); hmsg_type MNextProtocol; hmsg_type (MFinished vd)]
+    = [gen_typeHelloRequest; gen_typeClientHello; gen_typeServerHello; gen_typeNewSessionTicket; gen_typeCertificate;
+       gen_typeCertificateRequest; gen_typeCertificateStatus; gen_typeServerKeyExchange; gen_typeServerHelloDone;
+       gen_typeClientKeyExchange; gen_typeCertificateVerify; gen_typeNextProtocol; gen_typeFinished]) /\
+  (forall t, In t gen_readHandshake_dispatch <-> exists m, hmsg_type m = t).
+Proof.
+  split; [exact enc_hmsg_type|]. split; [exact hmsg_types_match_source|exact dispatch_is_hmsg_types].
+Qed.
+Print Assumptions C15_message_numbers_match_source.
+
+(* The flights of the models are the source's: whatever sequence makes an endpoint model complete, what it consumed
+   (warning alerts dropped) is, message type by message type, the list of reads the translator found in the source -
+   every mandatory read and a choice of the optional ones, in that order - for the full handshake or the resumption.
+   The three server entry points read the same sequence (server_reads_same_in_every_mode). *)
+Theorem C15_flights_read_in_source_order :
+  (forall cfg ins st', server_run cfg ins = RComplete st' ->
+     exists used rest choice, strip ins = used ++ rest /\
+       (reads used = pick gen_reads_tls_server_full choice \/ reads used = pick gen_reads_tls_server_resume choice)) /\
+  (forall cfg ins st', c_gm cfg = true -> client_run cfg ins = RComplete st' ->
+     exists used rest choice, strip ins = used ++ rest /\
+       (reads used = pick gen_reads_gm_client_full choice \/ reads used = pick gen_reads_gm_client_resume choice)) /\
+  (forall cfg ins st', c_gm cfg = false -> client_run cfg ins = RComplete st' ->
+     exists used rest choice, strip ins = used ++ rest /\
+       (reads used = pick gen_reads_tls_client_full choice \/ reads used = pick gen_reads_tls_client_resume choice)) /\
+  (gen_reads_gm_server_full = gen_reads_tls_server_full /\ gen_reads_gm_server_resume = gen_reads_tls_server_resume /\
+   gen_reads_auto_hello ++ gen_reads_auto_tls_server_full = gen_reads_tls_server_full /\
+   gen_reads_auto_hello ++ gen_reads_auto_gm_server_full = gen_reads_tls_server_full /\
+   gen_reads_auto_hello ++ gen_reads_auto_tls_server_resume = gen_reads_tls_server_resume /\
+   gen_reads_auto_hello ++ gen_reads_auto_gm_server_resume = gen_reads_tls_server_resume).
+Proof.
+  split; [|split; [|split]].
+  - intros cfg ins st' H. apply (server_reads_in_source_order cfg (strip ins) st'); [apply nowarn_strip|].
+    eapply server_run_strip; [exact H|reflexivity].
+  - intros cfg ins st' Hgm H. apply (gm_client_reads_in_source_order cfg (strip ins) st' Hgm); [apply nowarn_strip|].
+    eapply client_run_strip; [exact H|reflexivity].
+  - intros cfg ins st' Hgm H. apply (tls_client_reads_in_source_order cfg (strip ins) st' Hgm); [apply nowarn_strip|].
+    eapply client_run_strip; [exact H|reflexivity].
+  - exact server_reads_same_in_every_mode.
+Qed.
+Print Assumptions C15_flights_read_in_source_order.
+
+(* The alert numbers the models interpret (close_notify, the warning / error levels, the warning budget) and the
+   alert of every refusal at the dispatch level; the ClientAuth constants, and each numeric test of s_auth in
+   HSModel.v against the source's test of Config.ClientAuth it stands for (HSFlightTie.auth_test reads a row). *)
+Theorem C15_alert_and_clientauth_numbers_match_source : forall want_ccs warn level desc a,
+  (gen_readRecord_alert_levels = [gen_alertLevelWarning; gen_alertLevelError] /\
+   read_record want_ccs warn (IAlert level desc) =
+     if desc =? gen_alertCloseNotify then RLError
+     else if level =? gen_alertLevelWarning then
+       (if Nat.ltb (N.to_nat gen_maxWarnAlertCount) (S warn) then RLError else RLAgain (S warn))
+     else RLError) /\
+  gen_readHandshake_alerts = [gen_alertInternalError; gen_alertUnexpectedMessage; gen_alertUnexpectedMessage] /\
+  ((gen_NoClientCert, gen_RequestClientCert, gen_RequireAnyClientCert, gen_VerifyClientCertIfGiven, gen_RequireAndVerifyClientCert)
+     = (0, 1, 2, 3, 4) /\
+   gen_auth_tests_gm_doFullHandshake = gen_auth_tests_tls_doFullHandshake /\
+   gen_auth_tests_gm_processCertsFromClient = gen_auth_tests_tls_processCertsFromClient /\
+   gen_auth_tests_gm_checkForResumption = gen_auth_tests_tls_checkForResumption /\
+   (1 <=? a) = auth_test (auth_row gen_auth_tests_tls_doFullHandshake 1) a /\
+   (1 <=? a) = auth_test (auth_row gen_auth_tests_tls_doFullHandshake 2) a /\
+   ((a =? 2) || (a =? 4)) = auth_test (auth_row gen_auth_tests_tls_doFullHandshake 3) a
+                            || auth_test (auth_row gen_auth_tests_tls_doFullHandshake 4) a /\
+   (3 <=? a) = auth_test (auth_row gen_auth_tests_tls_processCertsFromClient 0) a /\
+   ((a =? 2) || (a =? 4)) = auth_test (auth_row gen_auth_tests_tls_checkForResumption 0) a
+                            || auth_test (auth_row gen_auth_tests_tls_checkForResumption 1) a /\
+   (a =? 0) = auth_test (auth_row gen_auth_tests_tls_checkForResumption 2) a).
+Proof.
+  intros. split; [apply read_record_alert_numbers|]. split; [apply mismatch_alerts|].
+  pose proof (clientauth_tests_match_source a) as H. tauto.
+Qed.
+Print Assumptions C15_alert_and_clientauth_numbers_match_source.
 
 (* ---- non-vacuity --------------------------------------------------------------------------------------- *)
 Definition ex_sig := TCert 1 KIND_SM2 KU_SIGN 101.
@@ -280,3 +410,33 @@ Example C15_record_packing :
   (* ClientKeyExchange | CCS | CCS | Finished *)
   ex_pack (fun m => match m with [ckx; fin] => [RHs [ckx]; RCCS true; RCCS true; RHs [fin]] | _ => [] end) = PFailed.
 Proof. vm_compute. repeat split; reflexivity. Qed.
+
+(* the byte-level ClientHello parser: a minimal ClientHello; the same with an empty status_request as the last
+   extension (accepted, ocspStapling false - data[0] is not read); with an empty signature_algorithms as the last
+   extension (rejected, not a panic); a supported_curves body with an odd length; a truncated block *)
+Definition ex_ch (ext : list N) : list N :=
+  [1; 0; 0; 0] ++ [1; 1] ++ repeat 7 32 ++ [0] ++ [0; 2; 224; 19] ++ [1; 0] ++ ext.
+Example C15_clientHello_bytes :
+  (exists m, clientHello_unmarshal (ex_ch []) = Ok m /\ f_vers m = 257 /\ f_suites m = [57363] /\ f_comp m = [0]) /\
+  (exists m, clientHello_unmarshal (ex_ch [0; 4; 0; 5; 0; 0]) = Ok m /\ f_ocsp m = false) /\
+  (exists m, clientHello_unmarshal (ex_ch [0; 5; 0; 5; 0; 1; 1]) = Ok m /\ f_ocsp m = true) /\
+  clientHello_unmarshal (ex_ch [0; 4; 0; 13; 0; 0]) = Err 1 /\
+  (exists m, clientHello_unmarshal (ex_ch [0; 8; 0; 13; 0; 4; 0; 2; 2; 1]) = Ok m /\ f_sigalgs m = [513]) /\
+  clientHello_unmarshal (ex_ch [0; 7; 0; 10; 0; 3; 0; 1; 23]) = Err 1 /\
+  clientHello_unmarshal (ex_ch [0; 4; 0; 5; 0; 1]) = Err 1 /\
+  ext_block_ok [0; 5; 0; 0] /\ ~ ext_block_ok [0; 13; 0; 0].
+Proof.
+  repeat split; try (vm_compute; reflexivity); try (eexists; vm_compute; repeat split; reflexivity).
+  - apply (EB_cons 0 5 0 0 [] []); [reflexivity|exact I|constructor].
+  - intros H. apply (ch_ext_loop_accepts 5 [0; 13; 0; 0] (mkCHF 0 [] [] [] [] false [] false [] [] false [] [] false [] [] false)) in H; [|cbn; lia].
+    destruct H as [r H]. vm_compute in H. discriminate.
+Qed.
+
+(* the reads of the source, all optional ones taken / none taken; the reads of a concrete input sequence *)
+Example C15_reads_examples :
+  pick gen_reads_tls_server_full [true; true; true] = [1; 11; 16; 15; 256; 67; 20] /\
+  pick gen_reads_tls_server_full [false; false; false] = [1; 16; 256; 20] /\
+  pick gen_reads_gm_client_full [false; false] = [2; 11; 12; 14; 256; 20] /\
+  pick gen_reads_tls_client_resume [true] = [2; 4; 256; 20] /\
+  reads [IHs MServerHelloDone; IAlert 1 100; ICCS true; IHs (MFinished TNil)] = [14; 256; 20].
+Proof. repeat split; reflexivity. Qed.
